@@ -117,23 +117,99 @@ def showDst (d : Option Dst) : String :=
     s!"dst=1 man={man} dirs={showIds (sortNat (d.parts.map (·.id)))} inc={showIds (sortNat inc)} other=0 " ++
     s!"open=ok oparts={showIds (sortNat (rec_.map (·.id)))} rows={showRows (content rec_)}"
 
-def tblSnapshot (s : TS) (tok : String) : TS × String :=
+/-- `stream = true`: the stream engine's `TakeFileSnapshot` first snapshots the element index into `<dst>/idx`
+    (the destination directory exists beforehand, as the shard directory does under a segment), and reports
+    success also when the table has no file part — the copy then holds the index only. -/
+def tblSnapshot (stream : Bool) (s : TS) (tok : String) : TS × String :=
   let sp := parseSnap tok
   let pin := showParts s.t
   let s0 := { s with fired := [], hookOut := [] }
-  let (s1, ret, _) := takeFileSnapshot tsLens (tblHook sp) sp.failAt none 0 s0
+  let (s1, ret, _) := takeFileSnapshot tsLens (tblHook sp) sp.failAt (if stream then some {} else none) 0 s0
   let r := match ret.status with
     | .noSnapshot => "N"
-    | .noDisk => "F"
+    | .noDisk => if stream then "T" else "F"
     | .err => "E"
     | .ok => "T"
   let d := ret.dst
   (s1, s!"S ret={r} fired={showIds s1.fired} pin={pin} hooks={joinOr s1.hookOut "/"} {showDst d}")
 
-def runTbl (ops : List String) : String :=
+/-! ### ttb: the trace engine (core parts + one secondary index whose parts mirror the core parts by id)
+
+Modelled as the *repaired* procedure: the core snapshot is pinned and the secondary index is hard-linked inside one
+publication critical section, so environment operations arriving at the first `n+1` file-system calls
+(`mkdir <dst>/sidx/<name>`, then one link per index part) wait and run when the section ends, i.e. immediately
+before the first core link (or after the call when it ends earlier). The rest is the table model:
+real call `q + n + 1` = model call `q`. The copy's index parts are the ids of the linked core parts and the index
+entries recovered on open are those of the recovered core parts. -/
+
+def valsOf (batches : List Nat) : List Nat := sortNat ((batches.flatMap rowsOf).map (·.2.2))
+
+def ttbHook (n : Nat) (sp : SnapSpec) (q : Nat) (s : TS) : TS :=
+  let real := q + n + 1
+  let s := { s with fired := s.fired ++ [real],
+                    hookOut := s.hookOut ++ [s!"{real}:snap={s.t.refCur};refs={showRefs s.t}"] }
+  let early := if q == 0 then (sortBy (fun (a b : Nat × String) => a.1 ≤ b.1) (sp.hooks.filter (·.1 ≤ n))) else []
+  (early ++ sp.hooks.filter (·.1 == real)).foldl (fun s h => tblMaint s h.2) s
+
+def ttbSnapshot (s : TS) (tok : String) : TS × String :=
+  let sp := parseSnap tok
+  let pin := showParts s.t
+  match s.t.cur with
+  | none =>
+    (s, s!"S ret=N fired=- pin={pin} hooks=- dst=0 man=none dirs=- inc=- other=0 open=none oparts=- rows=- ikeys=none")
+  | some S =>
+    let n := S.diskParts.length
+    let preState := s!"snap={s.t.refCur + 1};refs={showRefs s.t}"
+    let earlyOut := fun (upTo : Nat) => (List.range (upTo + 1)).map fun p => s!"{p}:{preState}"
+    let runEarlyAfter := fun (s : TS) (upTo : Nat) =>
+      (sortBy (fun (a b : Nat × String) => a.1 ≤ b.1) (sp.hooks.filter (·.1 ≤ upTo))).foldl (fun s h => tblMaint s h.2) s
+    -- a failing index link (calls 1..n) aborts inside the critical section
+    match sp.failAt with
+    | some f =>
+      if 1 ≤ f ∧ f ≤ n then
+        let s1 := runEarlyAfter s f
+        (s1, s!"S ret=E fired={showIds (List.range (f + 1))} pin={pin} hooks={joinOr (earlyOut f) "/"} " ++
+             "dst=0 man=none dirs=- inc=- other=0 open=none oparts=- rows=- ikeys=none")
+      else ttbCore s sp pin n preState (if f ≥ n + 1 then some (f - n - 1) else none)
+    | none => ttbCore s sp pin n preState none
+where
+  ttbCore (s : TS) (sp : SnapSpec) (pin : String) (n : Nat) (preState : String) (failAt : Option Nat) : TS × String :=
+    let earlyOut := (List.range (n + 1)).map fun p => s!"{p}:{preState}"
+    if n == 0 then
+      -- no file part: only the index directory is created; success is reported
+      let s1 := (sp.hooks.filter (·.1 == 0)).foldl (fun s h => tblMaint s h.2) s
+      (s1, s!"S ret=T fired=0 pin={pin} hooks={joinOr earlyOut "/"} dst=1 man=none dirs=- inc=- other=0 idx=- " ++
+           "open=ok oparts=- rows=- ikeys=none")
+    else
+      let s0 := { s with fired := [], hookOut := [] }
+      let (s1, ret, _) := takeFileSnapshot tsLens (ttbHook n sp) failAt none 0 s0
+      let r := match ret.status with | .err => "E" | _ => "T"
+      let fired := List.range (n + 1) ++ s1.fired
+      let head := s!"S ret={r} fired={showIds fired} pin={pin} hooks={joinOr (earlyOut ++ s1.hookOut) "/"} "
+      match ret.dst with
+      | none => (s1, head ++ "dst=0 man=none dirs=- inc=- other=0 open=none oparts=- rows=- ikeys=none")
+      | some d =>
+        let man := match d.manifest with | none => "none" | some m => showIds (sortNat m)
+        let rec_ := recover d
+        let ids := showIds (sortNat (d.parts.map (·.id)))
+        (s1, head ++ s!"dst=1 man={man} dirs={ids} inc=- other=0 idx={ids} " ++
+             s!"open=ok oparts={showIds (sortNat (rec_.map (·.id)))} rows={showRows (content rec_)} " ++
+             s!"ikeys={showIds (valsOf (content rec_))}")
+
+def runTtb (ops : List String) : String :=
   let (s, recs) := ops.foldl (fun (acc : TS × List String) op =>
     if op.startsWith "s" then
-      let (s', r) := tblSnapshot acc.1 op
+      let (s', r) := ttbSnapshot acc.1 op
+      (s', acc.2 ++ [r])
+    else (tblMaint acc.1 op, acc.2)) (({} : TS), [])
+  let ik := if s.t.cur.isNone then "none" else showIds (valsOf (allBatches s.t))
+  let fin := s!"F parts={showParts s.t} snap={s.t.refCur} refs={showRefs s.t} rows={showRows (allBatches s.t)} ikeys={ik}"
+  " | ".intercalate (recs ++ [fin])
+
+def runTbl (stream : Bool) (ops : List String) : String :=
+  let (s, recs) := ops.foldl (fun (acc : TS × List String) op =>
+    if op.startsWith "s" then
+      let (s', r) := tblSnapshot stream acc.1 op
       (s', acc.2 ++ [r])
     else (tblMaint acc.1 op, acc.2)) (({} : TS), [])
   let fin := s!"F parts={showParts s.t} snap={s.t.refCur} refs={showRefs s.t} rows={showRows (allBatches s.t)}"
@@ -216,7 +292,7 @@ def dbSnapshot (s : DS) (tok : String) : DS × String :=
     | .ok => "T"
   match ret.dst with
   | none => (s1, head r "0" ++ " copy=none")
-  | some segs => (s1, head r "1" ++ s!" copy={showCopy segs} open=ok q={showCopyQuery segs}")
+  | some segs => (s1, head r "1" ++ s!" copy={showCopy segs} open=ok q={showCopyQuery segs} bk=same")
 
 def showLive (db : DB) : String :=
   let qs := db.days.flatMap fun d =>
@@ -239,7 +315,10 @@ def runDb (ops : List String) : String :=
 
 def handle (line : String) : String :=
   match words line with
-  | "tbl" :: ops => runTbl ops
+  | "tbl" :: ops => runTbl false ops
+  | "stb" :: ops => runTbl true ops
+  | "ttb" :: ops => runTtb ops
+  | "ttbx" :: ops => runTtb ops
   | "db" :: ops => runDb ops
   | _ => "bad-op"
 
